@@ -290,7 +290,9 @@ pub broadcast axiom fn gax_pmul_req<G: AffineRepr>(a: G, s: G::ScalarField)
     ensures #[trigger] <G as MulSpec<G::ScalarField>>::mul_req(a, s);
 pub broadcast axiom fn gax_pmul_obeys<G: AffineRepr>()
     ensures #[trigger] <G as MulSpec<G::ScalarField>>::obeys_mul_spec();
-pub broadcast group group_ops { gax_link, gax_zero, gax_add, gax_add_req, gax_obeys, gax_pmul, gax_pmul_req, gax_pmul_obeys }
+// commutativity of point addition as a broadcast fact (closed after one step)
+pub broadcast axiom fn gax_add_comm_b<G: AffineRepr>(a: G, b: G) ensures #[trigger] G::p_add(a, b) == G::p_add(b, a);
+pub broadcast group group_ops { gax_add_comm_b, gax_link, gax_zero, gax_add, gax_add_req, gax_obeys, gax_pmul, gax_pmul_req, gax_pmul_obeys }
 
 pub axiom fn gax_add_comm<G: AffineRepr>(a: G, b: G) ensures G::p_add(a, b) == G::p_add(b, a);
 pub axiom fn gax_add_assoc<G: AffineRepr>(a: G, b: G, c: G) ensures G::p_add(G::p_add(a, b), c) == G::p_add(a, G::p_add(b, c));
